@@ -3,6 +3,7 @@ package main
 import (
 	"fmt"
 	"go/token"
+	"go/types"
 	"strings"
 
 	"golang.org/x/tools/go/ssa"
@@ -307,6 +308,10 @@ func c17R1(c *Check, validate, merge, urls *ssa.Function) {
 						c.Pass("C17.R1", key, where, "error of "+shortID(id)+" is returned / joined into the returned error")
 						continue
 					}
+					if f := flowsIntoCollectedErrors(P, fn, rv); f != "" {
+						c.Pass("C17.R1", key, where, "error of "+shortID(id)+" is appended to the error list "+f+", which is joined into a returned error")
+						continue
+					}
 					c.Fail("C17.R1", key, where, "error result of "+shortID(id)+" is never tested nor returned in "+fnKey(fn))
 					continue
 				}
@@ -319,6 +324,46 @@ func c17R1(c *Check, validate, merge, urls *ssa.Function) {
 			}
 		}
 	}
+}
+
+// flowsIntoCollectedErrors: the error value is appended to a []error field of a state struct (`m.errs = append(m.errs, err)`)
+// and some own function returns an error that depends on that field (`return errors.Join(m.errs...)`). Returns the field id.
+func flowsIntoCollectedErrors(P *Program, fn *ssa.Function, v ssa.Value) string {
+	for _, b := range fn.Blocks {
+		for _, ins := range b.Instrs {
+			st, ok := ins.(*ssa.Store)
+			if !ok {
+				continue
+			}
+			fa, ok := st.Addr.(*ssa.FieldAddr)
+			if !ok {
+				continue
+			}
+			sl, isSl := st.Val.Type().Underlying().(*types.Slice)
+			if !isSl || !isErrorType(sl.Elem()) || !dataDeps(st.Val)[v] {
+				continue
+			}
+			id := fieldAddrID(fa)
+			for _, g := range P.Funcs {
+				if !isOwnPath(pkgPathOf(g)) {
+					continue
+				}
+				for _, r := range returnsOf(g) {
+					for _, res := range r.Results {
+						if !isErrorType(res.Type()) {
+							continue
+						}
+						for d := range dataDeps(res) {
+							if fa2, isF := d.(*ssa.FieldAddr); isF && fieldAddrID(fa2) == id {
+								return id
+							}
+						}
+					}
+				}
+			}
+		}
+	}
+	return ""
 }
 
 // flowsIntoReturnedError: the error value is wrapped/appended into a value that a Return depends on.
@@ -366,11 +411,14 @@ func c17R2(c *Check, validate, merge, defaults, oidcURLs *ssa.Function) {
 	if c.Anchor("C17.R2", "proto.Clone/proto.Merge in the merge function", mergeCall != nil && cloneCall != nil) {
 		// Clone(default)
 		okClone := false
-		if _, f, ok := fieldLoad(stripConv(cloneCall.Common().Args[0])); ok && f != nil && f.Name() == "DefaultOidcConfig" {
-			okClone = true
-		}
-		if call, _, ok := asCall(cloneCall.Common().Args[0]); ok && isCallTo(call, pkgCfgV1+".Config.GetDefaultOidcConfig") {
-			okClone = true
+		// (also when the default configuration travels in a field of a small state struct built in the function)
+		for _, carg := range []ssa.Value{stripConv(cloneCall.Common().Args[0]), stripConv(resolveCell(stripConv(cloneCall.Common().Args[0])))} {
+			if _, f, ok := fieldLoad(carg); ok && f != nil && f.Name() == "DefaultOidcConfig" {
+				okClone = true
+			}
+			if call, _, ok := asCall(carg); ok && isCallTo(call, pkgCfgV1+".Config.GetDefaultOidcConfig") {
+				okClone = true
+			}
 		}
 		c.Obl(okClone, "C17.R2", "merge/clone-of-default", P.Pos(cloneCall.Pos()), "the merge starts from a clone of the default configuration",
 			"proto.Clone is not applied to the default OIDC configuration")
@@ -601,6 +649,30 @@ func c17R2(c *Check, validate, merge, defaults, oidcURLs *ssa.Function) {
 	defaultConfigNotAppended(c, "C17.R2")
 	chk(oidcURLs, "callback/non-root", "hasRootPath", idOIDCConfig+".GetCallbackUri", "callback URI must not have the root path")
 	chk(merge, "logout/non-root", "isRootPath", pkgCfgOIDC+".LogoutConfig.GetPath", "logout path must not be the root path")
+	// … evaluated on the configuration the filter ends up with: a logout section that is read before the override is
+	// merged and written back into the filter (a local fetched at the top of the loop body) is the unmerged one — nil for
+	// every override filter, whose merged logout path is then never looked at
+	{
+		isTypeStore := func(i ssa.Instruction) bool {
+			st, ok := i.(*ssa.Store)
+			if !ok {
+				return false
+			}
+			fa, ok := st.Addr.(*ssa.FieldAddr)
+			return ok && fieldAddrID(fa) == pkgCfgV1+".Filter.Type"
+		}
+		nLg := 0
+		for _, ci := range callsTo(merge, idOIDCConfig+".GetLogout") {
+			nLg++
+			head := loopHeadOf(ci.Block())
+			hit := reachAvoiding(ci, nil, isTypeStore, func(i ssa.Instruction) bool {
+				return head != nil && i.Block() == head && i == head.Instrs[0]
+			})
+			c.Obl(hit == nil, "C17.R2", "logout/read-after-merge/"+nthCallKey(ci), P.Pos(ci.Pos()), "the logout section is read from the filter's final (merged) configuration",
+				"the logout section is read before the merged configuration is written back into the filter ("+posOf(P, hit)+"): for an override filter the value is the unmerged one and the logout-path tests are skipped")
+		}
+		_ = nLg
+	}
 	// logout path != callback path on the merged filter config
 	verbatimBad := ""
 	okDiff := false
@@ -994,78 +1066,93 @@ func openidScopeRule(c *Check, rule string, defaults *ssa.Function) {
 	P := c.P
 	ff := FactsOf(defaults)
 	cfgParam := defaults.Params[0]
-	for i, r := range returnsOf(defaults) {
-		fs := ff.At(r)
-		ok := false
-		why := "return without the openid scope being present (neither found in the list nor appended)"
+	// present: the facts say that the exact scope "openid" is in the configured list
+	present := func(fs FactSet) (bool, string) {
 		// found: fact elem == "openid"
 		eq, known := fs.cmp(func(a, b ssa.Value) bool {
 			s, isC := constString(b)
 			return isC && s == "openid" && isString(a.Type())
 		})
 		if known && eq {
-			ok, why = true, "returns under the fact scope element == \"openid\""
+			return true, "returns under the fact scope element == \"openid\""
 		}
 		// found: fact slices.Contains(scopes, "openid") (the library form of the search loop)
-		if !ok {
-			for cond, pol := range fs {
-				inner, neg := unwrapBool(cond)
-				call, _, isC := asCall(inner)
-				if !isC || pol == neg {
-					continue
-				}
-				callee := call.Common().StaticCallee()
-				if callee == nil || callee.Pkg == nil && callee.Origin() == nil {
-					continue
-				}
-				o := callee
-				if callee.Origin() != nil {
-					o = callee.Origin()
-				}
-				if o.Pkg == nil || o.Pkg.Pkg.Path() != "slices" || o.Name() != "Contains" || len(call.Common().Args) != 2 {
-					continue
-				}
-				fromCfg := false
-				for d := range dataDeps(call.Common().Args[0]) {
-					if gc, _, isG := asCall(d); isG && isCallTo(gc, idOIDCConfig+".GetScopes") && gc.Common().Args[0] == ssa.Value(cfgParam) {
-						fromCfg = true
-					}
-					if fa, isF := d.(*ssa.FieldAddr); isF && fieldAddrID(fa) == idOIDCConfig+".Scopes" && fa.X == ssa.Value(cfgParam) {
-						fromCfg = true
-					}
-				}
-				if gc, _, isG := asCall(call.Common().Args[0]); isG && isCallTo(gc, idOIDCConfig+".GetScopes") && gc.Common().Args[0] == ssa.Value(cfgParam) {
+		for cond, pol := range fs {
+			inner, neg := unwrapBool(cond)
+			call, _, isC := asCall(inner)
+			if !isC || pol == neg {
+				continue
+			}
+			callee := call.Common().StaticCallee()
+			if callee == nil || callee.Pkg == nil && callee.Origin() == nil {
+				continue
+			}
+			o := callee
+			if callee.Origin() != nil {
+				o = callee.Origin()
+			}
+			if o.Pkg == nil || o.Pkg.Pkg.Path() != "slices" || o.Name() != "Contains" || len(call.Common().Args) != 2 {
+				continue
+			}
+			fromCfg := false
+			for d := range dataDeps(call.Common().Args[0]) {
+				if gc, _, isG := asCall(d); isG && isCallTo(gc, idOIDCConfig+".GetScopes") && gc.Common().Args[0] == ssa.Value(cfgParam) {
 					fromCfg = true
 				}
-				if s, isK := constString(call.Common().Args[1]); isK && s == "openid" && fromCfg {
-					ok, why = true, "returns under the fact slices.Contains(scopes, \"openid\")"
+				if fa, isF := d.(*ssa.FieldAddr); isF && fieldAddrID(fa) == idOIDCConfig+".Scopes" && fa.X == ssa.Value(cfgParam) {
+					fromCfg = true
 				}
+			}
+			if gc, _, isG := asCall(call.Common().Args[0]); isG && isCallTo(gc, idOIDCConfig+".GetScopes") && gc.Common().Args[0] == ssa.Value(cfgParam) {
+				fromCfg = true
+			}
+			if s, isK := constString(call.Common().Args[1]); isK && s == "openid" && fromCfg {
+				return true, "returns under the fact slices.Contains(scopes, \"openid\")"
 			}
 		}
+		return false, ""
+	}
+	isAppendStore := func(ins ssa.Instruction) bool {
+		st, isS := ins.(*ssa.Store)
+		if !isS {
+			return false
+		}
+		fa, isF := st.Addr.(*ssa.FieldAddr)
+		if !isF || fieldAddrID(fa) != idOIDCConfig+".Scopes" || fa.X != cfgParam {
+			return false
+		}
+		for d := range dataDeps(st.Val) {
+			if s, isC := constString(d); isC && s == "openid" {
+				return true
+			}
+		}
+		return false
+	}
+	for i, r := range returnsOf(defaults) {
+		ok, why := present(ff.At(r))
 		// appended: a store to config.Scopes of append(..., "openid") precedes on all paths
 		if !ok {
-			isAppendStore := func(ins ssa.Instruction) bool {
-				st, isS := ins.(*ssa.Store)
-				if !isS {
-					return false
-				}
-				fa, isF := st.Addr.(*ssa.FieldAddr)
-				if !isF || fieldAddrID(fa) != idOIDCConfig+".Scopes" || fa.X != cfgParam {
-					return false
-				}
-				for d := range dataDeps(st.Val) {
-					if s, isC := constString(d); isC && s == "openid" {
-						return true
-					}
-				}
-				return false
-			}
 			// the last store before this return on every path must be an append store: approximate by
 			// requiring that the return is not reachable from entry without passing an append store placed
 			// after the search loop (the loop's early return is the `found` case)
 			if mustPassBefore(defaults, r, isAppendStore) {
 				ok, why = true, "every path to this return appends \"openid\" to the scopes"
 			}
+		}
+		// one exit for both cases (`if !slices.Contains(scopes, "openid") { scopes = append(scopes, "openid") }; return`): every
+		// path to the return passes an append store or runs over an edge on which the scope is known to be in the list
+		if !ok && len(defaults.Blocks) > 0 && len(defaults.Blocks[0].Instrs) > 0 {
+			first := defaults.Blocks[0].Instrs[0]
+			if first != ssa.Instruction(r) && !isAppendStore(first) {
+				hit := reachAvoidingEdges(first, func(i ssa.Instruction) bool { return i == ssa.Instruction(r) }, isAppendStore,
+					func(p, q *ssa.BasicBlock) bool { found, _ := present(ff.OnEdge(p, q)); return found })
+				if hit == nil {
+					ok, why = true, "every path to this return appends \"openid\" or arrives with the scope found in the list"
+				}
+			}
+		}
+		if !ok {
+			why = "return without the openid scope being present (neither found in the list nor appended)"
 		}
 		c.Obl(ok, rule, fmt.Sprintf("openid-scope/return#%d", i+1), P.Pos(instrPos(r)), why, why)
 	}
@@ -1200,6 +1287,19 @@ func defaultConfigNotAppended(c *Check, rule string) {
 		}
 		return false
 	}
+	// the list is a field of a generated configuration message reached from the default configuration — not a field of
+	// an own struct that merely keeps a pointer to the default configuration next to its own lists
+	fromDefaultMsg := func(base ssa.Value) bool {
+		t := base.Type()
+		if pt, isP := t.Underlying().(*types.Pointer); isP {
+			t = pt.Elem()
+		}
+		nt, isN := t.(*types.Named)
+		if !isN || nt.Obj().Pkg() == nil || !strings.HasPrefix(nt.Obj().Pkg().Path(), modPath+"/config/gen/go") {
+			return false
+		}
+		return fromDefault(base)
+	}
 	n := 0
 	for _, fn := range P.Funcs {
 		if pkgPathOf(fn) != pkgInt {
@@ -1221,7 +1321,7 @@ func defaultConfigNotAppended(c *Check, rule string) {
 				if cl, _, isC := asCall(l); isC && cl != cc && len(cl.Common().Args) > 0 && fromDefault(cl.Common().Args[0]) {
 					bad = descDepth(l, 3)
 				}
-				if base, f, isL := fieldLoad(l); isL && f != nil && fromDefault(base) {
+				if base, f, isL := fieldLoad(l); isL && f != nil && fromDefaultMsg(base) {
 					bad = descDepth(l, 3)
 				}
 				// a parameter of a helper: what the callers hand over
@@ -1239,7 +1339,7 @@ func defaultConfigNotAppended(c *Check, rule string) {
 								if cl, _, isC := asCall(al); isC && len(cl.Common().Args) > 0 && fromDefault(cl.Common().Args[0]) {
 									bad = descDepth(al, 3) + " (passed to " + fnKey(fn) + ")"
 								}
-								if base, f, isL := fieldLoad(al); isL && f != nil && fromDefault(base) {
+								if base, f, isL := fieldLoad(al); isL && f != nil && fromDefaultMsg(base) {
 									bad = descDepth(al, 3) + " (passed to " + fnKey(fn) + ")"
 								}
 							}
